@@ -16,6 +16,7 @@ ASSUMPTIONS = ["real members of a class satisfy the literature's condition (math
 def run(ctx):
     ca = formula.get(ctx.repo)
     n = formula.r_formula(ctx, "sound")
+    formula.r_params(ctx)       # the conditions are written with the parameters the user gave
     formula.r_regen(ctx)        # stale conditions (of other parameters / samples) exclude members of the current class
     formula.r_statpair(ctx)     # the stationary sample a family invents is a fresh one
     c07.r_lookup_and_separate(ctx)  # two queries share a recorded sample only when they are the same point (equal pruned decompositions)
